@@ -2,9 +2,11 @@ package rules
 
 import (
 	"fmt"
+
 	"go/types"
 	"sort"
 	"strings"
+	"tcheck/ir"
 
 	"tcheck/load"
 )
@@ -78,5 +80,50 @@ func B1(rc *RC) {
 		default:
 			rc.S.Ok("B1", key, pos, c)
 		}
+	}
+}
+
+// B3: the pure-Go replacement of the assembly divmod is the defining expression
+// (a / b, a % b). Only analysable in configurations that compile mathutils_go.go (noasm, or
+// non-amd64); in the others the rule records that the assembly version is trusted.
+func B3(rc *RC) {
+	rc.S.Declare("B3", "pure-Go divmod (noasm / non-amd64) returns (a / b, a % b) on every path", 0)
+	fi := rc.P.Func("tensor.divmod")
+	if fi == nil || fi.Decl.Body == nil {
+		rc.S.Ok("B3", "tensor.divmod", "-", "assembly implementation in this configuration (trusted base)").Trivial = true
+		return
+	}
+	pos := rc.P.Pos(fi.Decl.Pos())
+	_, tree := sCanon(rc, fi)
+	paths, ok := ir.EnumPaths(tree, 64)
+	if !ok {
+		rc.S.Undec("B3", "tensor.divmod", pos, "too many paths")
+		return
+	}
+	var bad []string
+	for _, p := range paths {
+		q, r := "", ""
+		for _, st := range p.Steps {
+			if st.Kind == "let" && st.Target == "$ret0" {
+				q = st.Value
+			}
+			if st.Kind == "let" && st.Target == "$ret1" {
+				r = st.Value
+			}
+		}
+		if p.Ret != "" {
+			parts := strings.SplitN(p.Ret, ", ", 2)
+			if len(parts) == 2 {
+				q, r = parts[0], parts[1]
+			}
+		}
+		if q != "($a / $b)" || r != "($a % $b)" {
+			bad = append(bad, fmt.Sprintf("returns (%s, %s) on [%s], not (a / b, a %% b)", q, r, strings.Join(p.Guards, " && ")))
+		}
+	}
+	if len(bad) > 0 {
+		rc.S.Viol("B3", "tensor.divmod", pos, strings.Join(bad, "; ")).Sig = fmt.Sprint(len(bad)) + " deviating paths"
+	} else {
+		rc.S.Ok("B3", "tensor.divmod", pos, "q = a / b, r = a % b")
 	}
 }
